@@ -43,7 +43,9 @@ def run(ctx):
         rx += rng.sample(pool[k], min(n, len(pool[k])))
     # rows that need a particular neighbour to expose an index mix-up: no common substructure at all (dropped by
     # get_largest_condition), both-side imbalance with surplus O (in-place water step), input-balanced, redox-curated
-    rx += ["CC>>O", "CCCCCC>>P", "c1ccccc1>>N", "CCOC(=O)C>>CC(=O)O", "CC(=O)O>>CCO", "CCO.CC(=O)O>>CC(=O)OCC.O", "CC(=O)C>>CC(O)C", "CCO>>CCO"]
+    rx += ["CC>>O", "CCCCCC>>P", "c1ccccc1>>N", "CCOC(=O)C>>CC(=O)O", "CC(=O)O>>CCO", "CCO.CC(=O)O>>CC(=O)OCC.O", "CC(=O)C>>CC(O)C", "CCO>>CCO",
+           # different inputs that are completed to the SAME output string (with and without the water): their scores differ
+           "CC(=O)OCC>>CC(=O)O", "CC(=O)OCC.O>>CC(=O)O", "CCCOC(=O)C>>OC(=O)C", "CCCOC(=O)C.O>>OC(=O)C"]
     rx = list(dict.fromkeys(rx))
     ctx.count("pool", "reactions", len(rx))
     nperm = 2 if ctx.quick() else 6
